@@ -321,7 +321,7 @@ class Check:
         libs = []
         if link_ompl:
             info = self.ompl()
-            flags += ["-I" + i for i in info["includes"]]
+            flags += ["-I" + i for i in info["includes"]] + ["-DNDEBUG"]  # as libompl itself is built
             libs = ["-L" + info["libdir"], "-lompl", "-Wl,-rpath," + info["libdir"], "-lboost_serialization",
                     "-lboost_filesystem", "-lboost_system", "-lpthread"]
             h.update(str(os.path.getmtime(info["lib"])).encode())
